@@ -1,6 +1,6 @@
 # C14 — stack depth limiting.  Model: coq/Model/FrameLimit.v; tie: harness/h_samply psd mode
 # (ProcessSampleData::flush_samples_to_profile driven directly; samply/src/shared/*.rs compiled in by #[path]).
-import json, os, re, shutil, subprocess, sys
+import struct, json, os, re, shutil, subprocess, sys
 from concurrent.futures import ThreadPoolExecutor
 from . import common as K
 from . import perfdata as P
@@ -71,6 +71,12 @@ def gen(tier, rng, scale):
             d = max(1, _depth(erng, True))
             base += 0x1000000
             items.append({"extra": False, "segs": [["g", d, base, erng.choice([8, 16, 24])]], "depth": d})
+        if erng.chance(1, 3):
+            # a second recorded event (a tracepoint): its samples become markers, whose call chains are stacks of the profile too
+            for it in items:
+                it["marker"] = erng.chance(1, 2)
+            if not any(it["marker"] for it in items):
+                items[0]["marker"] = True
         cases.append({"kind": "e2e", "items": items})
     return cases
 
@@ -115,7 +121,109 @@ def _rle(addrs_or_marks):
     return out
 
 
+def _two_event_file(items, last_time):
+    """perf.data with two events recorded together (cpu-clock and a tracepoint), samples tagged by PERF_SAMPLE_IDENTIFIER; no sample_id_all.
+    items: (event id 1|2, time, callchain) in time order"""
+    S_IDENTIFIER = 1 << 16
+    st = S_IDENTIFIER | P.S_IP | P.S_TID | P.S_TIME | P.S_CPU | P.S_CALLCHAIN
+    asz = 128
+
+    def attr(ty, config, period):
+        a = struct.pack("<IIQQQQQIIQ", ty, asz, config, period, st, 0, 0, 0, 0, 0)
+        return a + bytes(asz - len(a))
+
+    def hstr(x):
+        b = x.encode() + b"\0"
+        b += bytes(-len(b) % 8)
+        return struct.pack("<I", len(b)) + b
+    events = [(attr(1, 0, 1000000), "cpu-clock", [1]), (attr(2, 700, 1), "syscalls:sys_enter_write", [2])]
+    data = struct.pack("<IHH", P.PERF_RECORD_COMM, 0, 8 + 16) + struct.pack("<II", 100, 100) + b"deep\0\0\0\0"
+    for ev, t, chain in items:
+        body = struct.pack("<QQiiQII", ev, chain[1] if len(chain) > 1 else 0, 100, 100, t, 0, 0) + struct.pack("<Q", len(chain)) + b"".join(struct.pack("<Q", x) for x in chain)
+        assert 8 + len(body) < 65536
+        data += struct.pack("<IHH", P.PERF_RECORD_SAMPLE, P.MISC_USER, 8 + len(body)) + body
+    hs = 104
+    ids = b"".join(struct.pack("<%dQ" % len(i), *i) for _, _, i in events)
+    attr_off = hs + len(ids)
+    ab, off = b"", hs
+    for a, _, i in events:
+        ab += a + struct.pack("<QQ", off, 8 * len(i))
+        off += 8 * len(i)
+    data_off = attr_off + len(ab)
+    desc = struct.pack("<II", len(events), asz)
+    for a, name, i in events:
+        desc += a + struct.pack("<I", len(i)) + hstr(name) + struct.pack("<%dQ" % len(i), *i)
+    feats = [(P.HEADER_ARCH, hstr("x86_64")), (12, desc), (P.HEADER_SAMPLE_TIME, struct.pack("<QQ", ORIGIN, last_time))]
+    toff = data_off + len(data)
+    poff = toff + 16 * len(feats)
+    table, payload, flags = b"", b"", 0
+    for bit, blob in feats:
+        table += struct.pack("<QQ", poff + len(payload), len(blob))
+        payload += blob
+        flags |= 1 << bit
+    hdr = b"PERFILE2" + struct.pack("<QQQQQQQQQQQQ", hs, asz + 16, attr_off, len(ab), data_off, len(data), 0, 0, flags, 0, 0, 0)
+    return hdr + ids + ab + data + table + payload
+
+
+def _walk(th, i):
+    st, ft, fu, sa = th["stackTable"], th["frameTable"], th["funcTable"], th["stringArray"]
+    fr = []
+    while i is not None:
+        name = sa[fu["name"][ft["func"][st["frame"][i]]]]
+        m = re.fullmatch(r"\((\d+) frames elided\)", name)
+        fr.append(("E", int(m.group(1))) if m else (int(name, 16) if name.startswith("0x") else "X"))
+        i = st["prefix"][i]
+    return fr[::-1]
+
+
+def _e2e_markers(samply, case, d):
+    """the two-event variant: items with marker=True are samples of the tracepoint event and come out as marker stacks"""
+    t = ORIGIN + 10
+    recs = []
+    for s in case["items"]:
+        _, n, start, step = s["segs"][0]
+        lookups = [start + i * step for i in range(n)]
+        chain = [lookups[-1]] + [a + 1 for a in reversed(lookups[:-1])]
+        t += 1000
+        s["_t"] = t
+        if 8 * (len(chain) + 8) + 64 >= 65536:
+            return None
+        recs.append((2 if s.get("marker") else 1, t, [P.PERF_CONTEXT_USER] + chain))
+    pd = os.path.join(d, "rec.perf.data")
+    open(pd, "wb").write(_two_event_file(recs, t))
+    outp = os.path.join(d, "out.json")
+    r = subprocess.run([samply, "import", pd, "--save-only", "-o", outp], capture_output=True, text=True, timeout=300)
+    if r.returncode != 0 or not os.path.exists(outp):
+        return None
+    prof = json.load(open(outp))
+    th = next(x for x in prof["threads"] if str(x["tid"]).split(".")[0] == "100")
+    sm = th["samples"]
+    times = sm.get("time")
+    if times is None:
+        acc, times = 0.0, []
+        for dlt in sm["timeDeltas"]:
+            acc += dlt
+            times.append(acc)
+    by_time = {ORIGIN + int(round(x * 1e6)): sm["stack"][k] for k, x in enumerate(times)}
+    mk = th["markers"]
+    m_by_time = {}
+    for k in range(mk["length"]):
+        dta = mk["data"][k]
+        if isinstance(dta, dict) and isinstance(dta.get("cause"), dict) and mk["startTime"][k] is not None:
+            m_by_time[ORIGIN + int(round(mk["startTime"][k] * 1e6))] = dta["cause"].get("stack")
+    obs = []
+    for s in case["items"]:
+        src = m_by_time if s.get("marker") else by_time
+        if s["_t"] not in src:
+            obs.append(["OBad"])          # the stack did not reach the profile at all
+        else:
+            obs.append(_rle(_walk(th, src[s["_t"]])))
+    return obs
+
+
 def _e2e_one(samply, case, d):
+    if any(s.get("marker") for s in case["items"]):
+        return _e2e_markers(samply, case, d)
     recs = [P.comm(100, 100, "deep", ORIGIN + 1, True)]
     t = ORIGIN + 10
     for s in case["items"]:
